@@ -37,6 +37,8 @@ type replica struct {
 	height  int64
 	hash    []byte
 	hashes  map[int64][]byte // this replica's own commit hashes
+	stallFrom int // stall fault of the current block: log line from which the sink stalls (-1: none)
+	logLines  int // log lines of the current block so far
 }
 
 type blockRecord struct {
@@ -136,7 +138,16 @@ func (e *Exec) call(r *replica, fn func()) (pan interface{}) {
 	r.calls++
 	core.SetMapSeed(core.SplitMix64(r.cfg.MapSeed ^ (r.calls * 0x9E3779B97F4A7C15)))
 	core.SetWallClock(e.wallNs + r.cfg.ClockSkewNs + int64(r.calls))
+	if r.stallFrom >= 0 && core.TimerSeamAvailable {
+		logHook = func() {
+			r.logLines++
+			if d := r.logLines - r.stallFrom; d > 0 && d%2 == 1 {
+				e.stall()
+			}
+		}
+	}
 	defer func() {
+		logHook = nil
 		core.ClearWallClock()
 		core.ClearMapSeed()
 		if x := recover(); x != nil {
@@ -146,6 +157,23 @@ func (e *Exec) call(r *replica, fn func()) (pan interface{}) {
 	}()
 	fn()
 	return nil
+}
+
+// stall: the node loses three seconds here (a stalled log sink). Simulated time jumps, the timers the application
+// armed under simulated time and whose deadline is reached fire, and whoever waits on them gets to run before the
+// stalled goroutine carries on.
+func (e *Exec) stall() {
+	fired := core.AdvanceSimClock(3 * time.Second)
+	e.res.Stats.C("stall_points", 1)
+	if fired > 0 {
+		e.res.Stats.C("stall_timers_fired", int64(fired))
+		for i := 0; i < 20; i++ {
+			for j := 0; j < 100; j++ {
+				runtime.Gosched()
+			}
+			time.Sleep(50 * time.Microsecond)
+		}
+	}
 }
 
 var baseGoroutines = 0
@@ -564,6 +592,15 @@ func (e *Exec) runBlock(bi int) {
 	e.step = (bi + 1) * 1000
 	rec := &blockRecord{}
 	e.history = append(e.history, rec)
+	for _, r := range e.reps {
+		r.stallFrom, r.logLines = -1, 0
+	}
+	for _, f := range b.Faults {
+		if f.Kind == "stall" && f.Replica > 0 && f.Replica < len(e.reps) {
+			e.reps[f.Replica].stallFrom = f.K
+			e.res.Stats.Fault("stall")
+		}
+	}
 
 	// ---- BeginBlock request
 	propAddr, propAcct := e.proposerOf(b, h)
